@@ -1,8 +1,47 @@
 /-
   DDS.Proofs.GenPagCodec — the binary codec of the REGENERATED buffered-paginated store
   (`DDS.Gen.Paginated.BufferedPaginatedStore.Encode` / `.DecodeAndMergeWith` in
-  `DDS/Generated/CodePaginated.lean`) against the HAND-WRITTEN model (`Sketch.encodeStore (.pg s)`,
-  `Sketch.decodeStore (.pg s)`).
+  `DDS/Generated/CodePaginated.lean`, translated on every run from `/repo/ddsketch/store/buffered_paginated.go`)
+  against the HAND-WRITTEN model (`Sketch.encodeStore (.pg s)`, `Sketch.decodeStore (.pg s)` in
+  `DDS/Model/Sketch.lean`).  Interfaces taken as hypotheses: `CompactSpec cf` (GenPagAdd), `PageSpec` (GenPagBase).
+
+  1. ENCODE.  `Encode_eq` (and `Encode_compact`, `Encode_pos`, `Encode_neg`): for all stores `s`, capacities, prefixes
+     `b`, sides,
+        `Encode fuel (toGen s cap) b t = toRes (fun (st', blocks) => (toGen st' cap, b ++ bytes of blocks))
+                                              (Sketch.encodeStore (.pg s) side)`:
+     the store is compacted (same capacity), the bytes appended are exactly those of the model's blocks
+     (`pagBlocks`: one `IndexDeltas` block for a non-empty buffer, one `ContiguousCounts` block — first index,
+     stride 1, counts — per non-empty page), `.panic` exactly when the model says `none` (`compact` panics), never
+     `.nofuel`.  Fuel: `encodeFuel cf s = max (cf s) 9` (the three loops of `Encode` are structural).
+     Hypothesis `PEncRange` on the COMPACTED store: `len(buffer)`, `len(page) < 2^64`, the buffer deltas (from 0)
+     and the first index of every non-empty page in the `int64` range — the `uint64(..)`/`int64(..)` conversions
+     of the Go code; no hypothesis on the weights (`F64.fin w` enters the float codec for every rational), none on
+     the invariant.  `pEncRange_of_inv`: it follows from `PStore.Inv` and `len(buffer) < 2^64`;
+     `Encode_inv`: on a store with the invariant `Encode` succeeds, same content, model bytes.
+
+  2. DECODE (`DecAgrees r m`: model error `.eof` ⇒ `.ok (_, _, io.EOF)`; model `.ok (st', rest)` ⇒
+     `.ok (toGen s' cap', bn rest, nil)` with `Inv s'`, `st' = .pg st''`, `Inv st''`, `content s' = content st''`;
+     the model never says `none` under the hypotheses).  The model adds bin by bin, the Go code appends to the
+     buffer in batches / adds page-wise, so the stores agree up to abstraction (content) only.
+     * `DecodeAndMergeWith_deltas` — layout `BinEncodingIndexDeltas`, in full: batches whose size depends on
+       the capacity and the `grow` oracle, `compact()` in between (`dec_loop2`, `dec_loop1`).  Hypotheses: `Inv s`;
+       `len(buffer) ≤ max(cap, trigger)` (true of a Go slice; otherwise the first batch size is negative and
+       `remaining` grows); announced count `v < 2^63`; every decoded index an int32.  Fuel `F + 3v + 21`, `F` a
+       bound of `cf` on the stores with the invariant whose buffer has at most `L ≥ len(buffer) + v` entries.
+     * `DecodeAndMergeWith_contiguous` — layout `BinEncodingContiguousCounts`, in full: any start, any stride
+       (also 0 or negative), any number of pages (`dec_loop4`, `dec_loop3`).  Hypotheses: `Inv s`; every announced
+       index `start + j·stride` an int32; every decoded count finite and `≥ 0`.  Fuel
+       `pageFuelMax + 2·numBins + 13` (`pageFuel_le`: `pageFuelMax = 268435500` suffices for `page` under `Inv`).
+     * `DecodeAndMergeWith_fallback` — every other sub-flag is the oracle `decodeFallback`.
+
+  DISAGREEMENT FOUND (`deltas_negative_count_model` / `deltas_negative_count_gen`, kernel-checked): a block of
+  layout `IndexDeltas` announcing `numBins ≥ 2^63`: `remaining := int(numBins)` is negative, so is the batch
+  size, no index is read, `remaining -= batchSize` gives 0 and Go returns `nil` (block accepted, nothing merged);
+  the model — and the generic `store.DecodeAndMergeWith` the other stores use — tries to read the bins and fails
+  with `io.EOF`.  Only on malformed input; hence the hypothesis `v < 2^63`.
+  Observations, not disagreements: on `io.EOF` in the middle of a block the Go store keeps the bins read so far
+  (the model's error carries no store); the `ContiguousCounts` path materialises the page of an index before it
+  reads its count, and adds zero counts to a materialised page (the model skips them) — same content.
 -/
 import DDS.Proofs.GenPagDefs
 import DDS.Proofs.GenPagBase
@@ -703,5 +742,232 @@ theorem dec_loop4 (numBins : BitVec 64) (stride : Int) (hstride : DDS.I64 stride
           simp [this]
         · simp [h0]
       simp only [Gen.Paginated.BufferedPaginatedStore.DecodeAndMergeWith.loop4, hcond, Bool.false_eq_true, if_false]
+
+/-- enough fuel for `page` on any store with the invariant and any page index of an int32 index -/
+def pageFuelMax : Nat := 268435500
+
+theorem pageFuel_le (s : PStore) (h : PStore.Inv s) (p : Int) (hp : PStore.PageIdx32 p) :
+    pageFuel s p ≤ pageFuelMax := by
+  unfold pageFuel pageFuelMax
+  unfold PStore.PageIdx32 at hp
+  split
+  · omega
+  · rename_i hc
+    have := h.range.2 (fun h0 => hc (Or.inl h0))
+    omega
+
+/-- a loop that falls through (the function then returns `nil`) against the model -/
+def DoneAgrees (cap : Int) (r : Loop (GP × List (BitVec 8) × BitVec 64 × BitVec 64) (GP × List (BitVec 8) × GoErr))
+    (m : Option (Except SkErr (Store × Bytes))) : Prop :=
+  match m with
+  | none => False
+  | some (.error e) => e = .eof ∧ ∃ g' b', r = .ret (g', b', GoErr.eof)
+  | some (.ok (st', rest)) => ∃ s' st'' off i', r = .done (toGen s' cap, bn rest, off, i') ∧ st' = .pg st'' ∧
+      PStore.Inv s' ∧ PStore.Inv st'' ∧ content s' = content st''
+
+/-- the pages of the `ContiguousCounts` layout (`loop3`) -/
+theorem dec_loop3 (hpage : PageSpec) (numBins : BitVec 64) (stride : Int) (hstride : DDS.I64 stride) (cap : Int) :
+    ∀ (r fuel : Nat) (b : List (BitVec 8)) (s : PStore) (idx : Int) (i : BitVec 64) (st : PStore),
+    numBins.toNat = i.toNat + r → pageFuelMax + 2 * r + 12 ≤ fuel →
+    PStore.Inv s → PStore.Inv st → content st = content s →
+    (∀ j : Nat, j < r → Idx32 (idx + (j : Int) * stride)) →
+    (∀ c ∈ ccCounts r (nb b), NonnegFin c) →
+    DoneAgrees cap (Gen.Paginated.BufferedPaginatedStore.DecodeAndMergeWith.loop3 numBins 32
+        (BitVec.ofInt 64 stride) fuel (toGen s cap) b (BitVec.ofInt 64 idx) i)
+      (Sketch.decItems (Sketch.ccItem stride) r (.pg st) idx (nb b)) := by
+  intro r
+  induction r using Nat.strongRecOn with
+  | _ r ih =>
+    intro fuel b s idx i st hn hf hI hIt hc hrange hcnt
+    obtain ⟨fuel, rfl⟩ : ∃ f, fuel = f + 1 := ⟨fuel - 1, by omega⟩
+    by_cases hr : r = 0
+    · subst hr
+      have hu := DDS.GenStoreDecode.ult_of_eq i numBins (by omega)
+      simp only [Gen.Paginated.BufferedPaginatedStore.DecodeAndMergeWith.loop3, hu, Bool.false_eq_true, if_false,
+        Sketch.decItems]
+      exact ⟨s, st, _, _, by rw [bn_nb], rfl, hI, hIt, hc.symm⟩
+    · have hu := DDS.GenStoreDecode.ult_of_lt i numBins (by omega)
+      have hx : Idx32 idx := by
+        have := hrange 0 (by omega); simpa using this
+      have hL := hI.pageLen_eq
+      have hp := PStore.pageIdx32_of_idx32 s hL idx hx
+      obtain ⟨s₁, k?, hpg, hI₁, hwt₁, hk₁⟩ := PStore.page_spec s hI (s.pageIndex idx) hp true
+      obtain ⟨k, rfl, hslot, hsz⟩ := hk₁ rfl
+      have hL₁ := hI₁.pageLen_eq
+      have hgp := hpage s cap (s.pageIndex idx) true fuel
+        (Nat.le_trans (pageFuel_le s hI _ hp) (by omega))
+      rw [hpg, toRes_some] at hgp
+      have hc₁ : content st = content s₁ := by
+        rw [hc]; symm
+        exact PStore.content_eq_of_lookup s₁ hI₁ _ (PStore.content_wf s hI)
+          (fun j => by rw [hwt₁, PStore.lookup_content s hI])
+      -- the slot
+      have hslot' := hslot
+      unfold PStore.slot? at hslot'
+      split at hslot'
+      · rename_i hcond
+        have hkeq : (k : Int) = s.pageIndex idx - s₁.minPageIndex := by
+          have := Option.some.inj hslot'; omega
+        have hksz : k < s₁.pages.size := by omega
+        have hidx : idx = (s₁.minPageIndex + (k : Int)) * 32 + ((s₁.lineIndex idx : Nat) : Int) := by
+          rw [hkeq]
+          simp only [PStore.pageIndex, PStore.lineIndex, hL, hL₁]
+          omega
+        have hlt : s₁.lineIndex idx < 32 := by
+          simp only [PStore.lineIndex, hL₁]; omega
+        rcases dec_loop4 numBins stride hstride cap r fuel b s₁ k ((s₁.lineIndex idx : Nat) : Int) idx i st hn
+          (by omega) hI₁ hIt hc₁ hksz (by rw [hsz, hL₁]) hidx hrange hcnt with
+          ⟨h1, g', b', h2⟩ | ⟨r', s2, st2, idx2, b2, page2, line2, i2, h1, h2, h3, h4, h5, h6, h7, h8, h9, h10⟩
+        · rw [h1]
+          refine ⟨rfl, g', b', ?_⟩
+          rw [Gen.Paginated.BufferedPaginatedStore.DecodeAndMergeWith.loop3]
+          simp only [hu, if_true, cdc_toInt _ hx, gen_pageIndex, hgp, Res.bindL_ok, toGen_minPageIndex, ← hkeq,
+            gen_lineIndex, pageOf, h2, Loop.elimL]
+        · have hlt' : r' < r := h4 ⟨by omega, by omega, by omega⟩
+          have hrec := ih r' hlt' fuel b2 s2 idx2 i2 st2 h2 (by omega) h6 h7 h8 h9 h10
+          rw [h5]
+          have hstep : Gen.Paginated.BufferedPaginatedStore.DecodeAndMergeWith.loop3 numBins 32
+                (BitVec.ofInt 64 stride) (fuel + 1) (toGen s cap) b (BitVec.ofInt 64 idx) i
+              = Gen.Paginated.BufferedPaginatedStore.DecodeAndMergeWith.loop3 numBins 32
+                (BitVec.ofInt 64 stride) fuel (toGen s2 cap) b2 (BitVec.ofInt 64 idx2) i2 := by
+            rw [Gen.Paginated.BufferedPaginatedStore.DecodeAndMergeWith.loop3]
+            simp only [hu, if_true, cdc_toInt _ hx, gen_pageIndex, hgp, Res.bindL_ok, toGen_minPageIndex, ← hkeq,
+              gen_lineIndex, pageOf, h1, Loop.elimL]
+          rw [hstep]
+          exact hrec
+      · cases hslot'
+
+theorem beqCC1 : (BinEncodingContiguousCounts == BinEncodingIndexDeltas) = false := by decide
+theorem beqCC2 : (BinEncodingContiguousCounts == BinEncodingContiguousCounts) = true := by decide
+
+/-- **`DecodeAndMergeWith`, layout `BinEncodingContiguousCounts`** (page-wise adds, any start, any stride, any
+    number of pages), against `Sketch.decodeStore (.pg s)`: same error, same remaining bytes, and the resulting
+    store is the image (same capacity) of a model store with the invariant and the CONTENT of the model's
+    result; neither side panics, the generated code does not run out of fuel.
+
+    Hypotheses: the invariant; every announced index `start + j·stride` (`j < numBins`) is an int32 (the Go code
+    fetches the page of an index BEFORE it reads the count, so also the index of a count that is cut off
+    matters); every decoded count is finite and non-negative (the invariant and the model's content need it).
+    Fuel: `pageFuelMax + 2·numBins + 13`. -/
+theorem DecodeAndMergeWith_contiguous (hpage : PageSpec) (grow : Int → Int → Int)
+    (fb : GP → List (BitVec 8) → SubFlag → Res (GP × List (BitVec 8) × GoErr))
+    (fuel : Nat) (s : PStore) (cap : Int) (b : List (BitVec 8)) (hI : PStore.Inv s) (hf9 : 9 ≤ fuel)
+    (hn : ∀ v r0 start r1 stride r2, decUvarint64 (nb b) = .ok (v, r0) → decVarint64 r0 = .ok (start, r1) →
+      decVarint64 r1 = .ok (stride, r2) →
+      pageFuelMax + 2 * v + 13 ≤ fuel ∧ (∀ j : Nat, j < v → Idx32 (start + (j : Int) * stride)) ∧
+        (∀ c ∈ ccCounts v r2, NonnegFin c)) :
+    DecAgrees (Gen.Paginated.BufferedPaginatedStore.DecodeAndMergeWith fuel grow fb (toGen s cap) b
+        BinEncodingContiguousCounts)
+      (Sketch.decodeStore (.pg s) Consts.binEncodingContiguousCounts (nb b)) := by
+  unfold Gen.Paginated.BufferedPaginatedStore.DecodeAndMergeWith
+  rw [Sketch.decodeStore_eq]
+  simp only [beqCC1, beqCC2, Bool.false_eq_true, if_false, if_true,
+    show Consts.binEncodingContiguousCounts ≠ Consts.binEncodingIndexDeltasAndCounts by decide,
+    show Consts.binEncodingContiguousCounts ≠ Consts.binEncodingIndexDeltas by decide]
+  cases hU : decUvarint64 (nb b) with
+  | error e =>
+    rw [U_err fuel hf9 b e hU]
+    simp only [Res.bind_ok, heof, if_true, Sketch.liftDec]
+    exact ⟨rfl, _, _, rfl⟩
+  | ok p =>
+    obtain ⟨v, r0⟩ := p
+    obtain ⟨b0, hU1, hb0, _, hv⟩ := U_ok fuel hf9 b v r0 hU
+    rw [hU1]
+    simp only [Res.bind_ok, hnil, Bool.false_eq_true, if_false, Sketch.liftDec]
+    cases hS : decVarint64 r0 with
+    | error e =>
+      rw [V_err fuel hf9 b0 e (by rw [hb0]; exact hS)]
+      simp only [Res.bind_ok, heof, if_true]
+      exact ⟨rfl, _, _, rfl⟩
+    | ok p =>
+      obtain ⟨start, r1⟩ := p
+      obtain ⟨b1, hS1, hb1, _, _⟩ := V_ok fuel hf9 b0 start r1 (by rw [hb0]; exact hS)
+      rw [hS1]
+      simp only [Res.bind_ok, hnil, Bool.false_eq_true, if_false]
+      cases hD : decVarint64 r1 with
+      | error e =>
+        rw [V_err fuel hf9 b1 e (by rw [hb1]; exact hD)]
+        simp only [Res.bind_ok, heof, if_true]
+        exact ⟨rfl, _, _, rfl⟩
+      | ok p =>
+        obtain ⟨stride, r2⟩ := p
+        obtain ⟨b2, hD1, hb2, _, hstride⟩ := V_ok fuel hf9 b1 stride r2 (by rw [hb1]; exact hD)
+        obtain ⟨hf, hrange, hcnt⟩ := hn v r0 start r1 stride r2 hU hS hD
+        rw [hD1]
+        simp only [Res.bind_ok, hnil, Bool.false_eq_true, if_false]
+        rw [gen_pageLen, hI.pageLen_eq, ← hb2]
+        have hnb : (BitVec.ofNat 64 v).toNat = (0#64).toNat + v := by
+          rw [BitVec.toNat_ofNat]
+          have : (0#64).toNat = 0 := rfl
+          unfold W64 at hv
+          omega
+        have h := dec_loop3 hpage (BitVec.ofNat 64 v) stride hstride cap v fuel b2 s start 0#64 s hnb (by omega) hI hI
+          rfl hrange (by rw [hb2]; exact hcnt)
+        revert h
+        cases Sketch.decItems (Sketch.ccItem stride) v (.pg s) start (nb b2) with
+        | none => exact fun h => h
+        | some r =>
+          cases r with
+          | error e =>
+            rintro ⟨h1, g', b', h2⟩
+            rw [show ((32 : Nat) : Int) = 32 from rfl, h2]; exact ⟨h1, g', b', rfl⟩
+          | ok q =>
+            obtain ⟨st', rest'⟩ := q
+            rintro ⟨s', st'', off, i', h1, h2⟩
+            rw [show ((32 : Nat) : Int) = 32 from rfl, h1]; exact ⟨s', cap, st'', rfl, h2⟩
+
+/-- the third layout (`BinEncodingIndexDeltasAndCounts`) and every unknown sub-flag go to the oracle `decodeFallback`
+    (the generic `store.DecodeAndMergeWith`, tied to the model in `GenStoreDecode`) -/
+theorem DecodeAndMergeWith_fallback (grow : Int → Int → Int)
+    (fb : GP → List (BitVec 8) → SubFlag → Res (GP × List (BitVec 8) × GoErr))
+    (fuel : Nat) (g : GP) (b : List (BitVec 8)) (m : SubFlag)
+    (h1 : (m == BinEncodingIndexDeltas) = false) (h2 : (m == BinEncodingContiguousCounts) = false) :
+    Gen.Paginated.BufferedPaginatedStore.DecodeAndMergeWith fuel grow fb g b m = fb g b m := by
+  unfold Gen.Paginated.BufferedPaginatedStore.DecodeAndMergeWith
+  simp only [h1, h2, Bool.false_eq_true, if_false]
+  cases fb g b m <;> rfl
+
+/-! ### 1b. `Encode` under the store invariant: the range hypotheses hold -/
+
+/-- a store with the invariant whose buffer length fits `uint64` is in range -/
+theorem pEncRange_of_inv (s : PStore) (hI : PStore.Inv s) (hlen : s.buffer.length < 2 ^ 64) : PEncRange s := by
+  have hL := hI.pageLen_eq
+  refine ⟨hlen, ?_, ?_, ?_⟩
+  · intro d hd
+    exact DDS.RoundTrip.dRec_wf 0 DDS.RoundTrip.idx32_zero s.buffer hI.bufRange d hd
+  · intro pg hpg
+    have := PStore.pages_size_le s hI pg hpg
+    omega
+  · intro q hq hne
+    obtain ⟨pg, off⟩ := q
+    have hq' := List.mem_zipIdx hq
+    simp only [Nat.zero_add, Nat.sub_zero, Nat.zero_le, true_and, Array.length_toList,
+      Array.getElem_toList] at hq'
+    obtain ⟨h1, h2⟩ := hq'
+    have hget : s.pages.getD off #[] = pg := by
+      simp [Array.getD_eq_getD_getElem?, h1, h2]
+    have := hI.pageRange off (by rw [hget]; exact hne)
+    apply cdc_idx32_i64
+    apply PStore.idx32_of_pageIdx32 s hL
+    rw [PStore.pageIndex_index s hL _ 0 (by omega)]
+    exact this
+
+/-- **`Encode` on a store with the invariant** (buffer shorter than `2^64`): it succeeds, returns the compacted store
+    `s'` (invariant, same content, same capacity) and appends exactly the bytes of the model's blocks. -/
+theorem Encode_inv (cf : PStore → Nat) (hcompact : CompactSpec cf) (fuel : Nat) (s : PStore) (cap : Int)
+    (side : Side) (t : FlagType) (ht : t.byte.toNat = Wire.sideType side) (b : List (BitVec 8))
+    (hI : PStore.Inv s) (hlen : s.buffer.length < 2 ^ 64) (hf : encodeFuel cf s ≤ fuel) :
+    ∃ s' blocks, Sketch.encodeStore (.pg s) side = some (.pg s', blocks) ∧
+      Gen.Paginated.BufferedPaginatedStore.Encode fuel (toGen s cap) b t
+        = .ok (toGen s' cap, b ++ bn (Wire.encBlocks blocks)) ∧
+      PStore.Inv s' ∧ content s' = content s := by
+  obtain ⟨s', hc, hI', hcont⟩ := DDS.Props.C04Pag.compact_content s hI
+  have hlen' := (DDS.RoundTrip.compact_buffer s s' hc).1
+  refine ⟨s', pagBlocks s' side, by rw [encodeStore_pg, hc]; rfl, ?_, hI', hcont⟩
+  rw [Encode_compact cf hcompact fuel s cap side t ht b
+    (fun s'' h'' => by
+      rw [hc] at h''; cases h''
+      exact pEncRange_of_inv s' hI' (by omega)) hf, hc]
+  rfl
 
 end DDS.GenPag
